@@ -2163,6 +2163,7 @@ def _self_aliases(fn):
 
 def normalize_module(tree: ast.Module, extern=None) -> ast.Module:
     from . import normalize2 as _n2
+    _n2.singledispatch_to_chain(tree)
     _n2.flatten_private_bases(tree)
     _n2.inline_private_properties(tree)
     tree = _n2.MatchToIf().visit(tree)
@@ -2200,6 +2201,7 @@ def normalize_module(tree: ast.Module, extern=None) -> ast.Module:
     _inline_decorators(tree)
     _inline_contextmanagers(tree)
     from . import normalize2 as n2
+    n2.sentinel_gets(tree)
     n2.inline_record_tables(tree)
     if n2.inline_value_objects(tree):
         _restore_anchor_names(tree)
